@@ -471,7 +471,7 @@ func (g *G) Build(kind, variant string, optional []string, depth int, decorate b
 }
 
 func (g *G) pickXOrder() wire.V {
-	switch g.R.Intn(9) {
+	switch g.R.Intn(10) {
 	case 0:
 		return wire.StrV("first")
 	case 1:
@@ -483,6 +483,10 @@ func (g *G) pickXOrder() wire.V {
 		return wire.NumV(fmt.Sprint(-2 - g.R.Intn(3)))
 	case 4:
 		return wire.StrV(fmt.Sprint(g.R.Intn(3) - 1)) // numerals given as strings
+	case 5:
+		// strings on which decimal reading (Atoi) and base detection differ: leading zeros are decimal, prefixes and
+		// underscores are no numerals at all
+		return wire.StrV([]string{"010", "08", "09", "011", "0x10", "0b11", "1_0", "+2", "-0", "007"}[g.R.Intn(10)])
 	}
 	return wire.NumV(fmt.Sprint(g.R.Intn(3)))
 }
